@@ -162,6 +162,22 @@ def run(tier, seed):
             got = f'{type(e).__name__}: {e}'
         if got != exp:
             res.violation('h03:agg-order:' + q[:80], 'ORDER BY on aggregate queries (aggregate / group keys, visible or hidden)', {'query': q, 'nrows': len(ROWS)}, got, exp)
+    # an ordered subquery under an outer ORDER BY: the outer sort is stable, rows that tie on the outer keys keep the order the
+    # subquery delivered them in (two sorts composed, inner first)
+    for inner_keys, outer_keys in [([('c', True)], [('a', False)]), ([('n', True)], [('b', False)]), ([('b', False), ('n', True)], [('a', True)]),
+                                   ([('n', True)], [('a', False), ('b', True)])]:
+        ik = ', '.join(k + (' DESC' if d else '') for k, d in inner_keys)
+        ok = ', '.join(k + (' DESC' if d else '') for k, d in outer_keys)
+        q = f'SELECT a, b, n FROM (SELECT a, b, c, n FROM #t ORDER BY {ik}) ORDER BY {ok}'
+        res.case(q, {'query': q})
+        inner = sort_spec(ROWS, [(KEYEXPRS[k], d) for k, d in inner_keys])
+        exp = [(r[0], r[1], r[3]) for r in sort_spec(inner, [(KEYEXPRS[k], d) for k, d in outer_keys])]
+        try:
+            got = [tuple(r) for r in conn.execute(q).fetchall()]
+        except Exception as e:
+            got = f'{type(e).__name__}: {e}'
+        if got != exp:
+            res.violation('h03:subquery-order:' + q[:90], 'sorting is stable: rows tying on the outer keys keep the order of the ordered subquery', {'query': q, 'nrows': len(ROWS)}, got, exp)
     special(res)
     return res.asdict()
 
